@@ -93,6 +93,9 @@ def gen_cases(prop, seed, tier):
     for i in range(n):
         ss = stream_seeds(seed, prop, i)
         cases.append({"run_index": i, "scenario_seed": ss["scenario"], "tier": tier})
+    for k in range(40 if tier == "quick" else 1200):
+        ss = stream_seeds(seed, prop, 200000 + k)
+        cases.append({"run_index": 200000 + k, "kind": "changed_resume", "scenario_seed": ss["scenario"], "tier": tier})
     # fixed schedules: n_steps enumerated completely (1..100) in the thorough tier, 1..24 in quick
     top = 100 if tier == "thorough" else 24
     for k in range(1, top + 1):
@@ -105,10 +108,14 @@ def gen_cases(prop, seed, tier):
 def scenario_of(case):
     if "scenario" in case:
         return case["scenario"]
+    if case.get("kind") == "changed_resume":
+        return {"sample_kwargs": {}, "target": {"kind": "n/a"}}
     return draw_case_scenario(case["scenario_seed"], case["tier"], case.get("force"))
 
 
 def run_schedule_case(case, workdir, want):
+    if case.get("kind") == "changed_resume":
+        return run_changed_resume_case(case, workdir) if "c06" in want else {"violations": [], "evaluations": 1, "nontrivial_keys": [], "digest": "skip"}
     scn = scenario_of(case)
     tier = case.get("tier", "quick")
     ks = scn["sample_kwargs"]["sampler_kwargs"]["n_steps"]
@@ -183,6 +190,71 @@ def run_schedule_case(case, workdir, want):
         "xp": scn["xp"], "dtype": scn["dtype"], "status": res.status, "n_iter": n_iter,
         "beta": (res.summary().get("h.beta") or [])[:12],
     })
+    return out
+
+
+def run_changed_resume_case(case, workdir):
+    """A run that stops early (crash after a checkpoint, or the step cap) is continued with a DIFFERENT schedule:
+    the combined temperature sequence must still be strictly increasing, within (0, 1] and end at exactly 1."""
+    import copy
+    import pickle
+
+    rng = rng_from(case["scenario_seed"])
+    t = make_target(pick(rng, ["gauss_box", "hug", "bimodal"]), int(pick(rng, [1, 2])), rng)
+    first = pick(rng, ["fixed", "capped"])
+    sk1 = {"sampler_kwargs": {"n_steps": 1}}
+    if first == "fixed":
+        sk1.update(adaptive=False, n_steps=int(rng.integers(3, 9)))
+    else:
+        sk1.update(adaptive=True, min_step=float(pick(rng, [0.01, 0.05])), max_n_steps=int(rng.integers(1, 4)), target_efficiency=0.9)
+    scn = default_scenario(t, n_samples=int(rng.integers(16, 48)), sample_kwargs=sk1, checkpoint={"mode": "callback", "every": 1},
+                           train={"n": 200, "shift": float(rng.uniform(1.5, 3.0)), "widen": 1.2}, rng_route="top",
+                           seeds={"rng": int(rng.integers(1 << 30)), "entropy": int(rng.integers(1 << 30)), "train": int(rng.integers(1 << 30)), "torch": 1})
+    out = {"violations": [], "evaluations": 1, "events": 0, "probes": {}, "faults_fired": {}, "nontrivial_keys": []}
+    r1 = run_process(scn, workdir, fresh_file=True, crash=("like", int(rng.integers(4, 12)), "interrupt") if first == "fixed" else None)
+    out["events"] += len(r1.trace.events)
+    if not r1.payloads:
+        out["digest"] = digest_of(["no checkpoint", r1.status])
+        return out
+    payload = r1.payloads[-1][2]
+    st = pickle.loads(payload)
+    b0 = float(st["meta"]["beta"])
+    if b0 >= 1.0:
+        out["digest"] = digest_of(["already finished"])
+        return out
+    scn2 = copy.deepcopy(scn)
+    sk2 = {"sampler_kwargs": {"n_steps": 1}, "adaptive": False, "n_steps": int(pick(rng, [5, 7, 10, 16, 40]))}
+    if rng.integers(3) == 0:
+        sk2 = {"sampler_kwargs": {"n_steps": 1}, "adaptive": True, "target_efficiency": 0.6}
+    scn2["sample_kwargs"] = sk2
+    r2 = run_process(scn2, workdir, resume=("bytes", payload), proc_no=1, stop_after=2 + 300 * 3)
+    out["evaluations"] += 1
+    out["events"] += len(r2.trace.events)
+    out["faults_fired"]["restart:bytes_with_changed_schedule"] = 1
+    where = {**O.scn_where(scn2), "first_schedule": first, "resumed_at": b0}
+    V = out["violations"]
+    if r2.status == "error":
+        V.append(O.violation("c06.raises", f"continuing at beta={b0!r} with schedule options {sk2} raised {r2.error}", {**where, "error_type": r2.error_type}))
+    elif r2.history is not None and hasattr(r2.history, "beta"):
+        beta = [float(b) for b in r2.history.beta]
+        prev = 0.0
+        for i, b in enumerate(beta):
+            if not b > prev:
+                V.append(O.violation("c06.not_increasing", f"continuation with a changed schedule: beta[{i}]={b!r} does not exceed the previous temperature {prev!r} "
+                                     f"(sequence {beta[:8]})", where, index=i))
+                break
+            if not 0.0 < b <= 1.0:
+                V.append(O.violation("c06.out_of_range", f"continuation with a changed schedule: beta[{i}]={b!r} outside (0, 1]", where))
+                break
+            prev = b
+        if r2.status == "ok" and beta and beta[-1] != 1.0:
+            V.append(O.violation("c06.end_not_one", f"continuation with a changed schedule finished at beta={beta[-1]!r}", where))
+        if r2.status == "stopped":
+            V.append(O.violation("c06.no_progress", f"continuation with a changed schedule did not terminate within 300 iterations (beta={beta[-1] if beta else None!r})", where))
+        out["nontrivial_keys"] = [["changed_resume", first, sk2.get("adaptive"), sk2.get("n_steps")]]
+        out["iterations"] = len(beta)
+    out["digest"] = digest_of([r2.summary().get("h.beta"), [(v["oracle"]) for v in V]])
+    out["sample"] = jsonable({"first": sk1, "resumed_at_beta": b0, "continued_with": sk2, "beta": (r2.summary().get("h.beta") or [])[:12]})
     return out
 
 
